@@ -11,6 +11,7 @@ import (
 	"path/filepath"
 	"strings"
 	"testing"
+	"time"
 
 	"github.com/IrineSistiana/mosdns/v5/coremain"
 	"github.com/IrineSistiana/mosdns/v5/pkg/matcher/netlist"
@@ -358,10 +359,23 @@ func runCase(c Case, ctx *hx.Ctx) *hx.Failure {
 		}
 		return nil
 	}
-	for _, a := range addrs {
-		if f := check(a); f != nil {
-			return f
+	var verdict *hx.Failure
+	if done, hang, detail := hx.CallBounded(30*time.Second, func() {
+		for _, a := range addrs {
+			if f := check(a); f != nil {
+				verdict = f
+				return
+			}
 		}
+	}); !done {
+		if hang {
+			return hx.Failf("C13/never-returns", "engine=%s set=%v: the membership queries have not returned after 30 s; stuck:\n%s", c.Engine, c.Ps, detail)
+		}
+		ctx.Class("inconclusive:queries-slow")
+		return nil
+	}
+	if verdict != nil {
+		return verdict
 	}
 	// invalid (zero) address never matches
 	if m1.Match(netip.Addr{}) {
